@@ -1,6 +1,7 @@
 (* C14 — lemmas, part 4: shExpMatch is glob matching.  The three textual rewrites
    turn a pattern made of literals, '.', '*' and '?' into a regular expression
-   whose anchored match (regexp semantics of G17.Model) is exactly [glob]. *)
+   whose anchored match (regexp semantics of G17.Regex) is exactly [glob]. *)
+From G17 Require Import RegexProofs.
 From G14 Require Import Model Spec.
 Import R.
 Open Scope N_scope.
@@ -137,7 +138,7 @@ Qed.
 
 Lemma matches_anchored K s : matches (RSeq (RBol false) K) s = nonempty (run K (None, s)).
 Proof.
-  unfold matches. destruct s as [|d r]; cbn [positions existsb]; unfold accepts_at at 1; cbn [run fst flat_map];
+  rewrite matches_eq. unfold matches_spec. destruct s as [|d r]; cbn [positions existsb]; unfold accepts_at at 1; cbn [run fst flat_map];
     rewrite app_nil_r; [rewrite orb_false_r; reflexivity|].
   rewrite no_match_later, orb_false_r. reflexivity.
 Qed.
@@ -226,3 +227,52 @@ Proof.
   rewrite (js_items_rewritten pattern Hp) by (pose proof (len_rewritten pattern); lia).
   rewrite compile_pattern, matches_anchored. rewrite <- (run_seqr_glob pattern None url Hu). reflexivity.
 Qed.
+
+Lemma existsb_ext_in' {A} (f g : A -> bool) l : (forall x, In x l -> f x = g x) -> existsb f l = existsb g l.
+Proof.
+  induction l as [|x l IH]; intro H; [reflexivity|]. cbn [existsb].
+  rewrite (H x (or_introl eq_refl)), IH; [reflexivity|]. intros y Hy. apply H. right. exact Hy.
+Qed.
+
+(* ---- the oracle's evaluator of glob is glob ---- *)
+Lemma existsb_same {A} (f : A -> bool) l l' : (forall x, In x l <-> In x l') -> existsb f l = existsb f l'.
+Proof.
+  intro H. apply eq_true_iff_eq. rewrite !existsb_exists. split; intros [x [Hx Hf]]; exists x; (split; [apply H; exact Hx|exact Hf]).
+Qed.
+
+Lemma In_dedup_str x l : In x (dedup_str l) <-> In x l.
+Proof.
+  induction l as [|y r IH]; [reflexivity|]. cbn [dedup_str]. destruct (existsb (str_eqb y) r) eqn:E.
+  - rewrite IH. split; [right; assumption|]. intros [<-|H]; [|exact H].
+    apply existsb_exists in E as [z [Hz Ez]]. apply str_eqb_eq in Ez. subst. exact Hz.
+  - cbn [In]. rewrite IH. reflexivity.
+Qed.
+
+Lemma existsb_flat_map {A B} (f : B -> bool) (g : A -> list B) l :
+  existsb f (flat_map g l) = existsb (fun x => existsb f (g x)) l.
+Proof. induction l as [|x l IH]; [reflexivity|]. cbn [flat_map existsb]. rewrite existsb_app, IH. reflexivity. Qed.
+
+Lemma glob_star p s : glob (42 :: p) s = existsb (glob p) (suffixes s).
+Proof.
+  cbn [glob]. change (42 =? 42) with true. cbn iota.
+  induction s as [|d s IH]; cbn [suffixes existsb]; [rewrite orb_false_r; reflexivity|]. rewrite IH. reflexivity.
+Qed.
+
+Lemma glob_other c p s : (c =? 42) = false -> glob (c :: p) s = existsb (glob p) (glob_step c s).
+Proof.
+  intro H. cbn [glob]. rewrite H. destruct s as [|d s]; [reflexivity|]. cbn [glob_step].
+  destruct ((c =? 63) || (c =? d)); cbn [existsb andb]; [rewrite orb_false_r|]; reflexivity.
+Qed.
+
+Lemma gsets_glob p : forall ss, existsb nil_str (gsets p ss) = existsb (glob p) ss.
+Proof.
+  induction p as [|c p IH]; intro ss; [reflexivity|]. cbn [gsets]. rewrite IH.
+  destruct (c =? 42) eqn:E.
+  - apply N.eqb_eq in E. subst c.
+    rewrite (existsb_same _ _ (flat_map suffixes ss) (fun x => In_dedup_str x _)), existsb_flat_map.
+    apply existsb_ext_in'. intros s _. symmetry. apply glob_star.
+  - rewrite existsb_flat_map. apply existsb_ext_in'. intros s _. symmetry. apply glob_other. exact E.
+Qed.
+
+Lemma glob_run_eq p s : glob_run p s = glob p s.
+Proof. unfold glob_run. rewrite gsets_glob. cbn [existsb]. apply orb_false_r. Qed.
